@@ -9,7 +9,15 @@ claimed = {
  "C16": ("proof", "Structural protocol of the Bash emitter: each opener/closer emits exactly its keyword line, closers require an open construct, empty bodies get a no-op, helper routines are emitted exactly when their flag is set.", "§5 C16"),
  "C17": ("other", "Go-side proof that write/read/exists emit the specified templates with the arguments in their positions; what the file system then holds is Bash's doing and is trusted.", "§5 C17"),
 }
+claimed.update({
+ "C04": ("proof", "Order and multiplicity of evaluation proved on the transpiler: every evaluate* function has ghost event-log postconditions (calls/arg/res/seq) stating that each operand is passed to evaluateExpression exactly once, in source order, with its value used, before the converter call that consumes it; all if/else-if conditions before IfStart; for: init, ForStart, guarded increment, condition, ForCondition, body, ForEnd. Loops are handled with invariants over the log, for any number of operands/branches.", "§5 C04"),
+ "C05": ("proof", "Go-side proof for the Batch converter: operator tables (IF comparison words, quoting of string vs numeric operands, doubled %), fresh helpers, routing of lines into function blocks, and the label allocator invariants (no live loop/if/end label equals a label handed out later, live labels pairwise distinct, continue/break/ForEnd target the innermost open loop). cmd.exe's meaning of the templates is trusted.", "§5 C05"),
+ "C18": ("other", "Only the transpiler half so far: a call chain leads to exactly one converter AppCall with the value-used flag. The word-level quoting clause on bash.AppCall is not yet under contract.", "§5 C18"),
+})
 notes = {
+ "C04": "Trusted: a helper reference (${_hN}) can be expanded any number of times without effect; the parser's AST keeps one node per source operand (parser-side clause pending); govc; solvers.",
+ "C05": "Trusted: cmd.exe semantics (parse-time %, run-time !, label search, IF numeric vs string, call/exit /B, set /A). Pinned helper routine bodies of ProgramEnd are not yet under contract.",
+ "C18": "Trusted: Bash word splitting/quoting rules; bash.AppCall and batch.AppCall bodies are only covered by the safety sweep so far.",
  "C01": "Trusted: Bash semantics of $(( )), [ ], $(if ..), while/break/continue, echo, exit (spec/shell_facts.md); govc itself; SMT solvers; library models (Sprintf, Join, Itoa). Parser precedence chain and transpiler call order are covered by C06/C04 checks as they come online.",
  "C02": "Trusted: Bash semantics of functions, local, positional parameters, return; assumption A2 (FuncCall writes the quoted arguments through the caller's slice).",
  "C03": "Trusted: Bash arrays, eval-based indirect expansion, ${v:o:l}, ${#v}; pinned helper bodies are compared with a reviewed constant, their meaning is not proved.",
